@@ -16,7 +16,9 @@ LEVEL_TEXT = (
     "exactly once' for return, error, timeout, panic and task abort alike; R3 no normal exit lies between the construction "
     "of a Client and the forget of its permit (otherwise Drop would return a permit that was never taken); R4 the "
     "semaphore is sized by the configured connection limit and is constructed once per server process (not per listener "
-    "thread, not in a loop). Not decided: that waiting connections are picked up 'as soon as' a slot frees (tokio "
+    "thread, not in a loop); R5 every socket read reachable from Client::handle (walked over the call graph, with the "
+    "futures handed to tokio::time::timeout marked) is bounded by a timeout derived from rx_timeout_secs — a silent peer "
+    "cannot keep its task, and with it its slot, forever. Not decided: that waiting connections are picked up 'as soon as' a slot frees (tokio "
     "fairness), the kernel backlog."
 )
 ASSUMPTIONS = [
@@ -166,24 +168,70 @@ def closure_defs(body, operand):
     return closure_defs_of(body, operand)
 
 
+def permit_returning_drops(ctx):
+    """Drop impls of the crate whose drop() (or what it calls) returns permits with add_permits"""
+    f = ctx.facts
+    cg = callgraph.get(ctx)
+    out = []
+    for b in f.bodies.values():
+        if b.impl_trait == "std::ops::Drop" and b.name == "drop":
+            reach = cg.reachable([b.path])
+            if any(t.callee.name == "add_permits" and (t.callee.path or "").startswith(SEM) for r in reach for _bb, t in cg.sites.get(r, ())):
+                out.append(b)
+    return out
+
+
+def owned_by_client(f, ty, depth=0, seen=None):
+    """is a value of type `ty` (an ADT path) the Client itself or stored by value in one of its fields (transitively)?"""
+    if ty == CLIENT:
+        return True
+    seen = seen if seen is not None else set()
+
+    def holds(adt_path):
+        if adt_path in seen or depth > 6:
+            return False
+        seen.add(adt_path)
+        a = f.adts.get(adt_path)
+        if a is None:
+            return False
+        for v in a["variants"]:
+            for fld in v["fields"]:
+                t = fld["ty"]
+                if t == ty or t.startswith(ty + "<"):
+                    return True
+                if t in f.adts and holds(t):
+                    return True
+        return False
+
+    return holds(CLIENT)
+
+
 def r2(ctx):
     rep = Report("C17.R2", "exactly one permit returned per Client on every exit: Drop = add_permits(1) once; no other add_permits/forget/close; Client not Clone/Copy/leaked", floor=6)
     f = ctx.facts
-    db = f.one("<" + CLIENT + " as std::ops::Drop>::drop")
+    drops = permit_returning_drops(ctx)
+    # only a destructor covers every way a task can end (return, error, timeout, panic, abort of the task)
+    rep.check(len(drops) == 1, "drop:returns-permit", "one Drop impl returns the permit (%s)" % [d.impl_self for d in drops], "%d Drop impls return permits (%s): the slot must be returned by the destructor of the Client (or of a value it owns) — code at the end of the task does not run when the task ends by an early return, `?`, a panic or an abort, and the slot is lost" % (len(drops), [d.impl_self for d in drops]), f.one(CLIENT + "::handle").loc())
+    if len(drops) != 1:
+        return rep
+    db = drops[0]
+    guard_ty = db.impl_self
+    rep.check(owned_by_client(f, guard_ty), "drop:owned-by-client", "%s is the Client / owned by it" % guard_ty.split("::")[-1], "the type whose Drop returns the permit (%s) is not the Client or a value stored in it: its lifetime is not the connection task's" % guard_ty, db.loc())
     rep.analysed(db)
     paths = Interp(f).run(db, [P("self")])
-    rep.check(bool(paths), "drop:paths", "drop evaluated", "cannot evaluate Client::drop", db.loc())
+    rep.check(bool(paths), "drop:paths", "drop evaluated", "cannot evaluate %s::drop" % guard_ty, db.loc())
     for p in paths:
         adds = [e for e in p.events if e.kind == "call" and e.name.endswith("Semaphore::add_permits")]
-        ok = len(adds) == 1 and adds[0].args[1] == 1 and F(P("self"), "limit_connections") in atoms(adds[0].args[0])
-        rep.check(ok, "drop:add_permits(1)-once", "add_permits(1) on self.limit_connections, once", "Client::drop returns %s permits (%s): %s" % (len(adds), [short(a.args[1], 10) for a in adds], "slots leak: after enough connections nothing is served" if not adds else "the limit grows/shrinks with every connection"), db.loc())
+        ok = len(adds) == 1 and adds[0].args[1] == 1 and any(isinstance(x, tuple) and x[0] == "field" and x[2] == "limit_connections" for x in atoms(adds[0].args[0]))
+        rep.check(ok, "drop:add_permits(1)-once", "add_permits(1) on self.limit_connections, once", "%s::drop returns %s permits (%s): %s" % (guard_ty.split("::")[-1], len(adds), [short(a.args[1], 10) for a in adds], "slots leak: after enough connections nothing is served" if not adds else "the limit grows/shrinks with every connection"), db.loc())
     # census
     cg = callgraph.get(ctx)
     sites = cg.callers_of(lambda c: c.path and (c.path.startswith(SEM) or "SemaphorePermit::" in c.path) and c.name in ("add_permits", "forget", "close", "forget_permits", "acquire", "acquire_owned", "try_acquire", "acquire_many"))
     # the accept side = whatever run() reaches (its helpers, sync or async), minus what the connection task runs
     handle_side = cg.reachable([x for x in f.bodies if x.startswith(CLIENT + "::handle")])
-    accept_side = cg.reachable([RUN]) - handle_side - {"<" + CLIENT + " as std::ops::Drop>::drop"}
-    allowed = {("add_permits", "<" + CLIENT + " as std::ops::Drop>::drop")}
+    drop_side = cg.reachable([db.path])
+    accept_side = cg.reachable([RUN]) - handle_side - drop_side
+    allowed = set(("add_permits", x) for x in drop_side)
     for bp, bb, t in sites:
         k = (t.callee.name, bp)
         rep.check(k in allowed or (t.callee.name in ("forget", "acquire") and bp in accept_side), "permit-op:%s@%s" % k, "%s in %s" % k, "Semaphore::%s is called in %s: permits are taken/returned outside the accept loop / Client::drop pairing" % k, loc_s(t.span))
@@ -283,4 +331,11 @@ def natural_loop(body, tail, head):
     return loop
 
 
-RULES = [("C17.R1", r1), ("C17.R2", r2), ("C17.R3", r3), ("C17.R4", r4)]
+def r5(ctx):
+    rep = Report("C17.R5", "idle timeout returns the slot: every wait for client bytes inside the connection task runs under tokio::time::timeout(rx_timeout_secs)", floor=3)
+    from rules import conntask
+
+    return conntask.rule_bounded_reads(rep, ctx)
+
+
+RULES = [("C17.R1", r1), ("C17.R2", r2), ("C17.R3", r3), ("C17.R4", r4), ("C17.R5", r5)]
